@@ -566,7 +566,7 @@ func runCase(cs *Case, traceRoot string, seq int, recMode string) (lines []rec) 
 	if len(lines) > 0 { // infra failure while setting up
 		return append([]rec{{"e": "case", "id": cs.ID, "seq": seq}}, lines...)
 	}
-	lines = append(lines, rec{"e": "case", "id": cs.ID, "seq": seq, "rec": recMode, "ctxs": ctxDescr, "init": initStore, "n": cs.N})
+	lines = append(lines, rec{"e": "case", "id": cs.ID, "seq": seq, "rec": recMode, "ctxs": ctxDescr, "init": initStore, "n": cs.N, "prog": cs})
 
 	takeLogs := func(c *cctx) ([]json.RawMessage, error) {
 		if c.mem != nil {
